@@ -323,19 +323,20 @@ def monC19 (h : Hist) : Option String :=
     -- header combination, a number of keys that grows with the number of requests). Histories with overlapping
     -- exchanges are left out (the recorded lost-update family), as are identifier collisions (recorded) and store faults.
     (if !h.faults.isEmpty || h.concurrent || h.cls == "collide" || h.cls == "concurrent" || h.cls == "inval-race" ||
-        h.cls == "reval-race" || h.cls == "swr" || h.cls == "swr-inval" || (h.reqs.any fun ri => !(h.calls ri.n "bg").isEmpty) then none else
+        h.cls == "reval-race" || h.cls == "swr" || h.cls == "swr-inval" || (h.evs.any fun | .call c => c.stream == "bg" | .store e => e.stream == "bg") then none else
       -- (the memory backend cannot list its keys: there the key set is the one the recorded writes and deletes leave)
       match (some (h.finalKeys.getD keys) : Option (List Str)) with
       | none => none
       | some ks =>
-        -- the index of a resource as last written
-        let idxOf (k : Str) : List Str := (h.evs.foldl (fun acc ev => match ev with
-          | .store s => if s.key ≠ k then acc else
+        -- the ids every index names as last written (one pass; only the entry keys at rest are then looked up)
+        let named : List (Str × List Str) := h.evs.foldl (fun acc ev => match ev with
+          | .store s =>
               (match s.op, s.result, s.val with
-               | "set", "ok", .idx refs _ => some (refs.map (·.id))
-               | "del", "ok", _ => none
+               | "set", "ok", .idx refs _ => (s.key, refs.map (·.id)) :: acc.filter (·.1 ≠ s.key)
+               | "del", "ok", _ => if s.key.contains '#' then acc else acc.filter (·.1 ≠ s.key)
                | _, _, _ => acc)
-          | _ => acc) none).getD []
+          | _ => acc) []
+        let idxOf (k : Str) : List Str := ((named.find? (·.1 = k)).map (·.2)).getD []
         (ks.find? fun k => k.contains '#' && !(idxOf (k.takeWhile (· ≠ '#'))).contains k).map fun k =>
           s!"at rest the store holds the entry {shw k}, which the index of its resource does not reference: a replaced response was left behind") ]
 
